@@ -54,7 +54,8 @@ theorem deserializeHml_length {bits : Bits} {m : Int} {n : Nat} {s rest : Bits}
 /-! ### `parse_aug` on constructed cells: what a successful parse says -/
 
 mutual
-  /-- below a negative remaining key length (label longer than the key) there are no leaves -/
+  /-- below a negative remaining key length there are no leaves (since the `{n <= m}` repair of `deserialize_hml` an ordinary
+  cell is refused there outright, `Proofs.Hashmap.deserializeHml_le`; this weaker form is all `parseAugP_lookup` needs) -/
   theorem parseAugP_neg {X : Type} (decY : PSlice → Option PSlice) (decX : PSlice → Option X) :
       ∀ (c : PCell) (keyLen : Int) (pfx : Bits) (kv : List (Bits × X)),
         keyLen < 0 → parseAugP decY decX c keyLen pfx = some kv → kv = []
